@@ -3,7 +3,8 @@
 # scratch worktree and the quick checks of the properties named in its meta.json (property + those in detected_by)
 # are run against it; reports which are (still) detected. Does not touch /repo. Output: out/seedsweep.txt
 export GOFLAGS=-mod=mod GOPROXY=off GOSUMDB=off GOTOOLCHAIN=local
-cd /verif
+VDIR=$(cd "$(dirname "$0")/.." && pwd)
+cd "$VDIR"
 ids="$@"
 [ -z "$ids" ] && ids=$(ls seeded)
 mkdir -p out
@@ -11,7 +12,7 @@ mkdir -p out
 for id in $ids; do
   props=$(python3 - "$id" <<'PY'
 import json,re,sys
-m=json.load(open('/verif/seeded/%s/meta.json'%sys.argv[1]))
+m=json.load(open('seeded/%s/meta.json'%sys.argv[1]))
 d=m.get('detected_by','')
 if isinstance(d,list): d=' '.join(map(str,d))
 ps=[]
@@ -20,9 +21,9 @@ for p in re.findall(r'C\d\d',str(d))+[m['property']]:
 print(' '.join(ps))
 PY
 )
-  sc=/tmp/wt/sweep_$id
+  sc=/tmp/wt/sweep_$$_$id
   git -C /repo worktree add -q --detach $sc HEAD || { echo "$id worktree-failed" >> out/seedsweep.txt; continue; }
-  if ! (cd $sc && git apply /verif/seeded/$id/patch.diff 2>/dev/null); then
+  if ! (cd $sc && git apply "$VDIR/seeded/$id/patch.diff" 2>/dev/null); then
     echo "$id patch-does-not-apply (made on an older tree)" >> out/seedsweep.txt
     git -C /repo worktree remove --force $sc; continue
   fi
@@ -30,6 +31,7 @@ PY
   for p in $props; do
     VERIF_REPO=$sc timeout 1500 ./check $p --tier quick -noevidence > /tmp/sweep_$id_$p.log 2>&1
     rc=$?
+    if [ $rc -ne 0 ] && [ $rc -ne 1 ]; then res="INCONCLUSIVE (check $p exited $rc)"; fi
     if [ $rc -eq 1 ]; then
       lab=$(grep -h "label=" /tmp/sweep_$id_$p.log | sed 's/.*label=\([^ ]*\).*/\1/' | sort -u | head -2 | tr '\n' ' ')
       res="DETECTED by $p: $lab"; break
